@@ -7,7 +7,7 @@ P="$(realpath "$1")"; PROP="$2"; shift; shift
 cd /repo || exit 2
 if [ -n "$(git status --porcelain --untracked-files=no)" ]; then echo "/repo has uncommitted changes; refusing"; exit 2; fi
 if ! git apply "$P"; then echo "patch does not apply"; exit 2; fi
-trap 'git -C /repo checkout -- . ' EXIT
+trap 'git -C /repo checkout -- . ; git -C /repo clean -qfd rlib' EXIT
 TESTS=ok
 for c in "$@"; do
   if ! cargo test --offline -q -p "$c" >/tmp/mutant_test.log 2>&1; then TESTS="FAIL($c)"; fi
